@@ -263,3 +263,22 @@ PROPS["C16"] = dict(
     assumptions=["Go memory model + sync as in Kust.Sync", "builds use the built-in schema"],
     design_ref="DESIGN.md §5 C16",
 )
+
+PROPS["C02"] = dict(
+    title="Untargeted content passes through a build unchanged (frame / type fidelity)",
+    modules=["Kust.Props.C02"],
+    theorems=["Kust.C02.filter_id", "Kust.C02.gvk_mismatch_untouched", "Kust.C02.setter_keeps_string", "Kust.C02.setter_leaves_safe_plain",
+              "Kust.C02.set_entry_new", "Kust.C02.footprints", "Kust.C02.tables_paths_wellformed", "Kust.C02.pathGet_plain",
+              "Kust.Fns.pathGet_nocreate_doc"],
+    components=["fieldspec.apply", "fns.setfield", "labels.build"],
+    oracle=True,
+    n_corr={"quick": 3000, "thorough": 40000}, n_oracle={"quick": 400, "thorough": 6000},
+    technique="Lean 4 proof (the field-spec traversal changes nothing except through its setter; setters quote YAML-1.1-ambiguous strings; decide +kernel over the regenerated transformer tables: documented footprints) + Go/Lean correspondence of fieldspec.Filter and FieldSetter + tracer-based frame/type oracle on whole builds with an adversarial scalar dictionary",
+    level_text="Theorems: for every document, plain path and fuel the non-creating filter with the identity setter returns its input (all changes are the setter's, at the denoted "
+               "nodes); a GVK mismatch is a no-op; a string value the YAML 1.1 readers would re-type is stored double-quoted for every value and every YAML-1.1 test; the "
+               "regenerated tables of the prefix/suffix/replicas/images/annotations/namespace transformers mention only their documented locations and consist of plain "
+               "segments. The composition over whole builds (exactly-once, frame at every JSON path, typed equality) is decided by the oracle on real builds.",
+    level_note=COMMON_NOTE + "go-yaml emission and the YAML 1.1 reader are parameters (IsValueNonString graph supplied per case); whole-build accumulation is not modelled.",
+    assumptions=["IsValueNonString is an uninterpreted parameter", "paths with `[]` hints and creation are covered by correspondence, the identity theorem covers non-creating plain paths"],
+    design_ref="DESIGN.md §5 C02",
+)
